@@ -22,6 +22,21 @@ Proof.
   unfold build_acc. intros H. apply bind_ok in H. destruct H as (x & _ & H). inversion H; subst. simpl. auto.
 Qed.
 
+(* the automatic properties are assigned after the configured module properties: whatever the configuration says about
+   implementation / interface_classes / features, the class-derived values are what the module object holds *)
+Lemma mp_set_get k v r :
+  (mp_impl (mp_set k v r) = match k with KImpl => Some v | _ => mp_impl r end) /\
+  (mp_ifaces (mp_set k v r) = match k with KIfaces => Some v | _ => mp_ifaces r end) /\
+  (mp_features (mp_set k v r) = match k with KFeatures => Some v | _ => mp_features r end).
+Proof. destruct k; simpl; auto. Qed.
+
+Lemma auto_props_win mc :
+  auto_props_after_cfg = true ->
+  prop_str (mp_impl (module_props mc)) = mc_impl mc /\
+  prop_list (mp_ifaces (module_props mc)) = interface_classes (mc_mro mc) /\
+  prop_list (mp_features (module_props mc)) = features_of (mc_mro mc).
+Proof. intros H. unfold module_props. rewrite H. unfold auto_props. simpl. auto. Qed.
+
 Lemma build_mod_static mc md : build_mod mc = Ok md ->
   m_name md = mc_name mc /\ m_export md = mc_export mc /\ m_ifaces md = interface_classes (mc_mro mc) /\
   m_features md = features_of (mc_mro mc) /\ m_impl md = mc_impl mc /\
@@ -29,7 +44,9 @@ Lemma build_mod_static mc md : build_mod mc = Ok md ->
   dup_free (wires (m_accs md)) = true.
 Proof.
   unfold build_mod. intros H. apply bind_ok in H. destruct H as (accs & Ha & H).
-  destruct (dup_free (wires accs)) eqn:D; simpl in H; [|discriminate]. inversion H; subst. simpl.
+  destruct (dup_free (wires accs)) eqn:D; simpl in H; [|discriminate].
+  destruct (forallb prop_kind_ok (mc_cfg_auto mc)); simpl in H; [|discriminate]. inversion H; subst. simpl.
+  destruct (auto_props_win mc) as (P1 & P2 & P3); [reflexivity|].
   repeat split; auto. apply map_resA_forall2; auto.
 Qed.
 
